@@ -22,6 +22,8 @@ become an exception (the decompressor may raise before the last byte it could de
 Partial reads (img.dataobj[..., 1::2], [..., -1], [..., 0]) go through the fileslice model of coq/C06 on the prefix, or -
 for a stream that raises when it runs out (bz2, zstd) - through rd_raising of coq/C08/ModelSlice.v:
   psingle|pimg|pmgh ... / psingleR|pimgR <...> <sel> <shape> <w> <x file> <delivered bytes per cut>
+Only public nibabel names are used; outcomes are classified by 'any exception' / equal / different and, for the one
+writer refusal, by exception type (never by message text); the model run is budgeted (bytes x cuts per line, model_cpu_s).
 GIFTI: expat's verdict (pyexpat alone) + the handler machine of coq/C17.  SPM .mat member: loadmat-contract model
   spmmat <names> <record sizes> <cuts>   -> one digit per cut (0 raises, 1 header affine, 2/3 affine of the complete .mat)
 """
@@ -490,7 +492,8 @@ def run(chk: Check):
             try:
                 members, main = write_spec(spec, d, comp)
             except Exception as e:  # noqa
-                if spec.get('probe') == 'S-C08b' and 'cannot store a point' in str(e):
+                from nibabel.streamlines.tractogram_file import DataError
+                if spec.get('probe') == 'S-C08b' and isinstance(e, DataError):      # by type; the spec is the all-inf-point one
                     chk.refusal('tck_save_refuses_all_inf_point')    # repair of S-C08b: such a file is no longer written
                     chk.count(key=('refused', spec['name']), tag='writer_refusal')
                     continue
@@ -524,13 +527,25 @@ def run(chk: Check):
                 par['shape'] = '[' + ','.join(str(int(x)) for x in img.shape) + ']'
                 par['w'] = int(img.dataobj.dtype.itemsize)
                 par['be'] = int(getattr(hdr, 'endianness', '>') == '>')
-                par['hsize'] = int(hdr._hdrdtype.itemsize) if isinstance(img, nib.MGHImage) else int(hdr.sizeof_hdr)
-                par['ftr'] = int(hdr._ftrdtype.itemsize) if isinstance(img, nib.MGHImage) else 0
+                if isinstance(img, nib.MGHImage):
+                    # sizes of the MGH header fields and footer through public names: template_dtype = header fields then footer fields
+                    fb_ = io.BytesIO()
+                    hdr.writeftr_to(fb_)                  # measured: the footer is what writeftr_to puts at get_footer_offset()
+                    par['ftr'] = len(fb_.getvalue()) - int(hdr.get_footer_offset())
+                    par['hsize'] = int(hdr.template_dtype.itemsize) - par['ftr']
+                else:
+                    par['hsize'], par['ftr'] = int(hdr.sizeof_hdr), 0
                 del img
             for key, path in sorted(members.items()):
                 raw = open(path, 'rb').read()
                 plain = raw if not comp or key == 'mat' else read_plain(comp, path)
                 lens = list(range(len(raw))) if spec.get('cuts', 'all') == 'all' or not comp else sample_cuts(comp, raw)
+                # budget of the extracted model: each cut costs about one pass over the plain bytes; keep bytes x cuts bounded
+                # whatever the writer produced (at most ~1e7 byte-steps per model line, a few seconds of CPU)
+                if len(plain) * len(lens) > 10 ** 7 and len(plain) > 20000:
+                    keep = max(8, 10 ** 7 // len(plain))
+                    lens = sorted(set(lens[i * (len(lens) - 1) // (keep - 1)] for i in range(keep)))
+                    chk.tagc('cuts_subsampled_for_model_budget')
                 mmaps = [False, True] if not comp else [False]
                 for mode in modes:
                     if mode != 'full' and key not in ('image',):
@@ -574,7 +589,7 @@ def run(chk: Check):
                 if fam in ('vol', 'cifti') and key == 'image' and not (strict and spec.get('cls') is nib.MGHImage):
                     R = 'R' if strict else ''     # the stream raises when it runs out: rd_raising of ModelSlice.v
                     for mode in modes:
-                        if mode not in SLICE_SEL:
+                        if mode not in SLICE_SEL or (mode == 'slice_step' and len(plain) > 20000):
                             continue
                         step = SLICE_SEL[mode]
                         cls = spec.get('cls')
@@ -623,7 +638,10 @@ def run(chk: Check):
             diffs.setdefault((si, comp, key, variant), []).append((n, rep))
     with open(os.path.join(chk.workdir, 'model_lines.txt'), 'w') as fh:      # for replaying a slow or failing line by hand
         fh.write('\n'.join(lines) + '\n')
-    mod = run_model(PROP, lines, timeout=600)
+    t_cpu0 = os.times()
+    mod = run_model(PROP, lines, timeout=300)
+    t_cpu1 = os.times()
+    chk.extra['model_cpu_s'] = round((t_cpu1.children_user + t_cpu1.children_system) - (t_cpu0.children_user + t_cpu0.children_system), 2)
     t_model = time.time() - t0 - t_prep - t_sweep
     # ---- the SPM .mat member against the loadmat-contract model (C08_prefix_spm_mat, C08_spm_mat_cut_classes)
     for name, mcid, got, mraw in mat_cases:
